@@ -48,6 +48,8 @@ func (c *Config) getScannerConfig() scanner.Config {
 		CompactKey: getCompactKey(c.Prefix),
 		Tombstone:  tombStoneBytes,
 		TTL:        time.Second * time.Duration(eventsTTL),
+		// only keys of the events resource directory directly under the prefix expire
+		EventsPrefix: getEventsPrefix(c.Prefix),
 	}
 }
 
@@ -55,6 +57,11 @@ func (c *Config) complete() {
 	if c.WatchCacheSize <= 0 {
 		c.WatchCacheSize = historyCapacity
 	}
+}
+
+// getEventsPrefix returns the raw key prefix of Kubernetes Event records: <prefix>/events/
+func getEventsPrefix(prefix string) []byte {
+	return append([]byte(prefix), events...)
 }
 
 func getCompactKey(prefix string) []byte {
